@@ -83,6 +83,10 @@ func (p *parser) parse() (pq *proto.Query, err error) {
 
 	}
 
+	if p.peek().typ != itemEOF {
+		p.errorf("unexpected %s after the end of the query", p.next())
+	}
+
 	pq = &proto.Query{
 		Expr:    expr,
 		GroupBy: groupBy,
